@@ -16,7 +16,9 @@ def _find_factory(binp):
     def find(features, fam, take, start, dyn=None):
         """static structural features, or (dyn=dict(notes=.., dd=.., width=..)) shapes observed in concrete probe runs"""
         if dyn:
-            argv = [binp, "kind=finddyn", "take=%d" % take, "start=%d" % start, "count=20000"] + ["%s=%s" % (k, v) for k, v in fam.items()] + ["%s=%s" % (k, v) for k, v in dyn.items()]
+            dyn = dict(dyn)
+            kind = "finddynsolve" if dyn.pop("_solve", False) else "finddyn"
+            argv = [binp, "kind=" + kind, "take=%d" % take, "start=%d" % start, "count=20000"] + ["%s=%s" % (k, v) for k, v in fam.items()] + ["%s=%s" % (k, v) for k, v in dyn.items()]
         else:
             argv = [binp, "kind=find", "features=" + ",".join(features), "take=%d" % take, "start=%d" % start, "count=20000"] + ["%s=%s" % (k, v) for k, v in fam.items()]
         out = subprocess.run(argv, stdout=subprocess.PIPE, text=True).stdout.strip()
